@@ -1,6 +1,6 @@
 (* C11 inbound: the invariant holds in every reachable state; the property lemmas. *)
 From Gv Require Import lib.Bytes C11.Model C11.Spec C11.ProofsInb C11.ProofsInbA C11.ProofsInbB C11.ProofsInbC
-  C11.ProofsInbD C11.ProofsInbE.
+  C11.ProofsInbD C11.ProofsInbE C11.ProofsInbF.
 From Coq Require Import Arith Lia Bool.
 Import Inb.
 
@@ -16,10 +16,12 @@ Lemma inv_step s x s' : Inv s -> step s x = Some s' -> Inv s'.
 Proof.
   intros HI Hs. unfold Inb.step in Hs.
   destruct (Inb.exists_b reqs (actor_of x)) eqn:He; [|discriminate].
-  destruct x as [i|i|i|i w|i]; cbn [actor_of] in He.
+  destruct x as [i|i|i|i w|i|i v]; cbn [actor_of] in He.
   - destruct (a_pc (act s i)) eqn:Hpc.
     + eapply inv_tau_start; eauto.
     + eapply inv_tau_y1; eauto.
+    + unfold tau in Hs; rewrite Hpc in Hs; discriminate.
+    + unfold tau in Hs; rewrite Hpc in Hs; discriminate.
     + unfold tau in Hs; rewrite Hpc in Hs; discriminate.
     + unfold tau in Hs; rewrite Hpc in Hs; discriminate.
     + eapply inv_tau_delete; eauto.
@@ -29,11 +31,14 @@ Proof.
     + eapply inv_tau_fdelete; eauto.
     + eapply inv_tau_ferr; eauto.
     + eapply inv_tau_fclose; eauto.
+    + eapply inv_tau_adelete; eauto.
+    + eapply inv_tau_aclose; eauto.
     + unfold tau in Hs; rewrite Hpc in Hs; discriminate.
   - eapply inv_wake_done; eauto.
   - eapply inv_wake_ctx; eauto.
   - eapply inv_ans; eauto.
   - destruct (a_cancel (act s i)); [discriminate|]. inversion Hs; subst. apply inv_cancel; auto.
+  - eapply inv_wr; eauto.
 Qed.
 
 Lemma inv_run tr : forall s s' o, Inv s -> run tr s = Some (s', o) -> Inv s'.
@@ -94,8 +99,8 @@ Proof.
     + pose proof (inv_step _ _ _ HI Hs) as HI1.
       pose proof (c_out_panic _ _ HI1 (actor_of x)) as P.
       unfold obs_of in Hin.
-      destruct (a_out (act s (actor_of x))) as [[k d f|e|]|];
-        destruct (a_out (act s1 (actor_of x))) as [[k' d' f'|e'|]|]; cbn in Hin;
+      destruct (a_out (act s (actor_of x))) as [[k d f|e| |f]|];
+        destruct (a_out (act s1 (actor_of x))) as [[k' d' f'|e'| |f']|]; cbn in Hin;
         try contradiction; try (destruct Hin as [Hin|[]]; inversion Hin; subst; congruence).
     + eapply IH; [|exact Hr2|exact Hin]. eapply inv_step; eauto.
 Qed.
@@ -167,29 +172,24 @@ Qed.
 (* ---- progress: some non-cancel action is enabled while anybody has not returned ---- *)
 Lemma step_tau_enabled s i :
   Inv s -> exists_b i = true ->
-  match a_pc (act s i) with PWait | PWork | PDone => False | _ => True end ->
+  match a_pc (act s i) with PWait | PWork | PWrite | PFWrite | PDone => False | _ => True end ->
   step s (Tau i) <> None.
 Proof.
   intros HI He Hp. unfold Inb.step. cbn [actor_of]. rewrite He. unfold tau.
-  destruct (a_pc (act s i)) eqn:Hpc; try contradiction.
+  destruct (a_pc (act s i)) eqn:Hpc; try contradiction;
+    try (destruct (a_ref (act s i)) eqn:Hr;
+         [|pose proof (c_noref _ _ HI i Hr) as X; rewrite Hpc in X; discriminate]).
   - destruct (elig (rq i)); [destruct (tbl s (rkey (rq i)))|]; discriminate.
-  - destruct (a_ref (act s i)) eqn:Hr; [discriminate|].
-    pose proof (c_noref _ _ HI i Hr) as X. rewrite Hpc in X. discriminate.
-  - destruct (a_ref (act s i)) eqn:Hr; [discriminate|].
-    pose proof (c_noref _ _ HI i Hr) as X. rewrite Hpc in X. discriminate.
-  - destruct (a_ref (act s i)) eqn:Hr; [discriminate|].
-    pose proof (c_noref _ _ HI i Hr) as X. rewrite Hpc in X. discriminate.
-  - destruct (a_ref (act s i)) eqn:Hr; [destruct (a_hasf (act s i)); discriminate|].
-    pose proof (c_noref _ _ HI i Hr) as X. rewrite Hpc in X. discriminate.
-  - destruct (a_ref (act s i)) eqn:Hr; [discriminate|].
-    pose proof (c_noref _ _ HI i Hr) as X. rewrite Hpc in X. discriminate.
-  - destruct (a_ref (act s i)) eqn:Hr; [discriminate|].
-    pose proof (c_noref _ _ HI i Hr) as X. rewrite Hpc in X. discriminate.
-  - destruct (a_ref (act s i)) eqn:Hr.
-    + destruct (fix_b fixed && a_cancel (act s n)); discriminate.
-    + pose proof (c_noref _ _ HI i Hr) as X. rewrite Hpc in X. discriminate.
-  - destruct (a_ref (act s i)) eqn:Hr; [discriminate|].
-    pose proof (c_noref _ _ HI i Hr) as X. rewrite Hpc in X. discriminate.
+  - discriminate.
+  - discriminate.
+  - discriminate.
+  - destruct (a_hasf (act s i)); discriminate.
+  - discriminate.
+  - discriminate.
+  - destruct (fix_b fixed && a_cancel (act s n)); discriminate.
+  - discriminate.
+  - destruct (e_done (ent s n)); discriminate.
+  - discriminate.
 Qed.
 
 Lemma step_ans_enabled s i :
@@ -198,26 +198,38 @@ Proof.
   intros He Hpc. unfold Inb.step. cbn [actor_of]. rewrite He. unfold ans. rewrite Hpc. discriminate.
 Qed.
 
+Lemma step_wr_enabled s i :
+  Inv s -> exists_b i = true -> (a_pc (act s i) = PWrite \/ a_pc (act s i) = PFWrite) ->
+  step s (Wr i WOk) <> None.
+Proof.
+  intros HI He Hpc. unfold Inb.step. cbn [actor_of]. rewrite He. unfold wr.
+  destruct Hpc as [Hpc|Hpc]; rewrite Hpc; [discriminate|].
+  destruct (a_ref (act s i)) eqn:Hr; [discriminate|].
+  pose proof (c_noref _ _ HI i Hr) as X. rewrite Hpc in X. discriminate.
+Qed.
+
 Lemma exists_of_moved s i : Inv s -> a_pc (act s i) <> PStart -> exists_b i = true.
 Proof.
   intros HI Hp. destruct (Inb.exists_b reqs i) eqn:He; [reflexivity|].
   rewrite (c_absent _ _ HI i He) in Hp. cbn in Hp. congruence.
 Qed.
 
-Lemma progress_l s :
+(* no wedge: while anybody has not returned, some action is enabled that is neither a cancellation nor a
+   panic - also in every state reached through panics of leaders, followers, writers *)
+Lemma progress_benign_l s :
   reach s -> (exists i, exists_b i = true /\ a_pc (act s i) <> PDone) ->
-  exists x, is_cancel x = false /\ step s x <> None.
+  exists x, is_cancel x = false /\ is_panic x = false /\ step s x <> None.
 Proof.
   intros HR (i & He & Hnd). pose proof (reach_inv _ HR) as HI.
   destruct (a_pc (act s i)) eqn:Hpc; try congruence;
-    try (exists (Tau i); split; [reflexivity|apply step_tau_enabled; auto; rewrite Hpc; exact I]).
+    try (exists (Tau i); split; [reflexivity|split; [reflexivity|apply step_tau_enabled; auto; rewrite Hpc; exact I]]).
   - (* PWait *)
     destruct (a_ref (act s i)) as [j|] eqn:Hr.
     2:{ pose proof (c_noref _ _ HI i Hr) as X. rewrite Hpc in X. discriminate. }
     assert (N : j <> i).
     { intro; subst. destruct (c_lead _ _ HI i Hr) as [_ L]. rewrite Hpc in L. discriminate. }
     destruct (e_done (ent s j)) eqn:Hd.
-    + exists (WakeDone i). split; [reflexivity|].
+    + exists (WakeDone i). split; [reflexivity|]. split; [reflexivity|].
       unfold Inb.step. cbn [actor_of]. rewrite He. unfold wake_done. rewrite Hpc, Hr, Hd.
       destruct (e_err (ent s j)); [discriminate|]. destruct (e_data (ent s j)) as [[? ?]|]; discriminate.
     + destruct (c_foll _ _ HI _ _ Hr N) as (Hj & _).
@@ -227,9 +239,90 @@ Proof.
       assert (Hje : exists_b j = true).
       { apply (exists_of_moved s j); auto. intro X. rewrite X in Lp. discriminate. }
       destruct (a_pc (act s j)) eqn:Hpj; try discriminate; try congruence;
-        try (exists (Tau j); split; [reflexivity|apply step_tau_enabled; auto; rewrite Hpj; exact I]).
-      exists (Ans j AOk). split; [reflexivity|apply (step_ans_enabled s j); auto].
-  - exists (Ans i AOk). split; [reflexivity|apply (step_ans_enabled s i); auto].
+        try (exists (Tau j); split; [reflexivity|split; [reflexivity|apply step_tau_enabled; auto; rewrite Hpj; exact I]]).
+      * exists (Ans j AOk). split; [reflexivity|split; [reflexivity|apply (step_ans_enabled s j); auto]].
+      * exists (Wr j WOk). split; [reflexivity|split; [reflexivity|apply (step_wr_enabled s j); auto]].
+  - exists (Ans i AOk). split; [reflexivity|split; [reflexivity|apply (step_ans_enabled s i); auto]].
+  - exists (Wr i WOk). split; [reflexivity|split; [reflexivity|apply (step_wr_enabled s i); auto]].
+  - exists (Wr i WOk). split; [reflexivity|split; [reflexivity|apply (step_wr_enabled s i); auto]].
+Qed.
+
+Lemma progress_l s :
+  reach s -> (exists i, exists_b i = true /\ a_pc (act s i) <> PDone) ->
+  exists x, is_cancel x = false /\ step s x <> None.
+Proof.
+  intros HR H. destruct (progress_benign_l s HR H) as (x & ? & _ & ?). exists x. auto.
+Qed.
+
+(* ---- panics: an [OCrash] is the actor's own injected panic, nobody else's ---- *)
+Lemma crash_origin_l s i f :
+  reach s -> a_out (act s i) = Some (OCrash f) ->
+  f = None /\ (a_ans (act s i) = Some APanic \/ a_wr (act s i) = Some WPanic).
+Proof. intros HR Ho. apply (c_out_crash _ _ (reach_inv _ HR) _ _ Ho). Qed.
+
+(* ---- the registry: a key is registered only while its leader is still inside the resolver ---- *)
+Lemma registry_clean_l s k j :
+  reach s -> tbl s k = Some j ->
+  exists_b j = true /\ a_ref (act s j) = Some j /\ rkey (rq j) = k /\ a_pc (act s j) <> PDone /\
+  e_done (ent s j) = false.
+Proof.
+  intros HR Ht. pose proof (reach_inv _ HR) as HI.
+  destruct (c_tbl _ _ HI _ _ Ht) as (Hr & Hp & Hk).
+  assert (He : exists_b j = true).
+  { destruct (Inb.exists_b reqs j) eqn:E; [reflexivity|]. rewrite (c_absent _ _ HI j E) in Hr. discriminate. }
+  repeat split; auto.
+  - intro X. rewrite X in Hp. discriminate.
+  - apply (c_lead_open _ _ HI j Hr). destruct (a_pc (act s j)); cbn in *; congruence.
+Qed.
+
+Lemma quiescent_registry_empty_l s :
+  reach s -> (forall i, exists_b i = true -> a_pc (act s i) = PDone) -> forall k, tbl s k = None.
+Proof.
+  intros HR Hall k. destruct (tbl s k) as [j|] eqn:Ht; [|reflexivity].
+  destruct (registry_clean_l _ _ _ HR Ht) as (He & _ & _ & Hn & _). exfalso. apply Hn, Hall, He.
+Qed.
+
+(* a leader that has left (returned, failed, panicked in its work or in its writer) has released its request *)
+Lemma leader_gone_released_l s j :
+  reach s -> a_ref (act s j) = Some j -> a_pc (act s j) = PDone ->
+  e_done (ent s j) = true /\ forall k, tbl s k <> Some j.
+Proof.
+  intros HR Hr Hp. pose proof (reach_inv _ HR) as HI. split.
+  - apply (c_lead_done _ _ HI j Hr Hp).
+  - intros k Ht. destruct (registry_clean_l _ _ _ HR Ht) as (_ & _ & _ & Hn & _). contradiction.
+Qed.
+
+(* ---- the leader's client writer is its private matter ----
+   Whether the Write of an actor succeeds or fails changes nothing but that actor's own [a_wr]: the
+   shared entry, the table and every other actor are the same, and the actor itself goes on at the same
+   program counter with the same outcome record (the bytes it handed to its writer). *)
+Lemma write_failure_private_l s i s1 s2 :
+  step s (Wr i WOk) = Some s1 -> step s (Wr i WFail) = Some s2 ->
+  tbl s1 = tbl s2 /\ ent s1 = ent s2 /\ (forall j, j <> i -> act s1 j = act s2 j) /\
+  a_pc (act s1 i) = a_pc (act s2 i) /\ a_out (act s1 i) = a_out (act s2 i) /\
+  a_ref (act s1 i) = a_ref (act s2 i).
+Proof.
+  unfold Inb.step. cbn [actor_of]. destruct (Inb.exists_b reqs i); [|discriminate].
+  unfold wr. destruct (a_pc (act s i)); try discriminate.
+  - intros H1 H2. inversion H1; inversion H2; subst; cbn.
+    repeat split; auto; unfold upd; try rewrite Nat.eqb_refl; cbn; auto.
+    intros j N. destruct (Nat.eqb_spec j i); [contradiction|reflexivity].
+  - destruct (a_ref (act s i)); [|discriminate].
+    intros H1 H2. inversion H1; inversion H2; subst; cbn.
+    repeat split; auto; unfold upd; try rewrite Nat.eqb_refl; cbn; auto.
+    intros j N. destruct (Nat.eqb_spec j i); [contradiction|reflexivity].
+Qed.
+
+(* what a follower ends with never depends on how its leader's own Write went: a follower that was handed
+   shared bytes got exactly what the leader's work produced, whatever [a_wr] of the leader says *)
+Lemma follower_unaffected_by_leader_write_l s i k d j :
+  reach s -> a_out (act s i) = Some (OWrote k d (Some j)) ->
+  a_ans (act s j) = Some (ans_of_kind k) /\ d = body (rq j) k /\ k <> KCan.
+Proof.
+  intros HR Ho. pose proof (reach_inv _ HR) as HI.
+  destruct (c_out_sh _ _ HI _ _ _ _ Ho) as (N & Hr & Hd & _).
+  destruct (c_data _ _ HI _ _ _ Hd) as (_ & _ & Hoj & Hk).
+  destruct (c_out_own _ _ HI _ _ _ Hoj) as (Hb & _ & Ha). auto.
 Qed.
 
 (* whoever has returned has an outcome, and conversely *)
